@@ -199,6 +199,20 @@ pub fn def(ctx: &Ctx) -> PropDef {
             check_jit,
         ));
     }
+    // long runs past counter-width boundaries (2^16 blocks of the buffered generators; 2^20 words
+    // of everything else), mixing the three call kinds
+    for ty in Ty::ALL {
+        let words: usize = match ty.info().engine {
+            Engine::Isaac | Engine::Isaac64 => 66_000 * 256,
+            _ => 1_200_000,
+        };
+        subs.push(PSub::boxed(
+            format!("long/{}", ty.name()),
+            t.pick(2, 6),
+            move || gens::det_spec(ty, true).prop_map(move |spec| DetCase { build: Build::Spec(spec), ops: vec![XOp::Op(Op::Fill(words * 4)), XOp::Op(Op::U32), XOp::Op(Op::U64), XOp::Op(Op::Fill(70_001)), XOp::Op(Op::U64)] }).boxed(),
+            check_det,
+        ));
+    }
     // timer_stats on boundary pairs of readings (every power of two, +-1, negated, wrap-around)
     subs.push(PSub::boxed("jitter/timer_stats-pairs", t.pick(20_000, 2_000_000), crate::props::c12::stats_strategy, |c: &crate::props::c12::StatsCase| {
         crate::props::c12::check_stats(c).map(|i| CaseInfo::new(true).class(i.classes.first().cloned().unwrap_or_default()))
